@@ -454,8 +454,8 @@ func compareTree(db walletdb.DB, top []byte, m *mb) string {
 // runProg executes one transaction program with a random outcome.
 func (w *world) runProg(r *rand.Rand, log *[]string, stats map[string]int) (key, what string) {
 	work := w.committed.clone()
-	outcome := r.Intn(7)
-	names := []string{"commit", "error", "panic", "readonly", "manual-rollback", "manual-commit", "panic-after-error-free-writes"}
+	outcome := r.Intn(9)
+	names := []string{"commit", "error", "panic", "readonly", "manual-rollback", "manual-commit", "panic-after-error-free-writes", "batch-commit", "batch-error"}
 	stats["outcome:"+names[outcome]]++
 	var mismatch string
 	var err error
@@ -486,6 +486,20 @@ func (w *world) runProg(r *rand.Rand, log *[]string, stats map[string]int) (key,
 			} else {
 				err = tx.Commit()
 			}
+		case 7, 8:
+			first := true
+			err = walletdb.Batch(w.db, func(tx walletdb.ReadWriteTx) error {
+				if !first {
+					// bbolt may re-run a batch function; the program is random, so only the first run is modelled
+					return errBoom
+				}
+				first = false
+				mismatch = body(r, tx.ReadWriteBucket(w.top), work, false, log, stats)
+				if outcome == 8 || mismatch != "" {
+					return errBoom
+				}
+				return nil
+			})
 		default:
 			err = walletdb.Update(w.db, func(tx walletdb.ReadWriteTx) error {
 				mismatch = body(r, tx.ReadWriteBucket(w.top), work, false, log, stats)
@@ -508,7 +522,13 @@ func (w *world) runProg(r *rand.Rand, log *[]string, stats map[string]int) (key,
 		return "c11:" + mismatch[:i], mismatch[i+1:]
 	}
 	switch outcome {
-	case 0, 5:
+	case 8:
+		if !errors.Is(err, errBoom) {
+			return "c11:error-not-propagated", fmt.Sprintf("Batch returned %v instead of the function's error", err)
+		}
+	}
+	switch outcome {
+	case 0, 5, 7:
 		if err != nil {
 			return "c11:commit-error", fmt.Sprintf("commit returned %v", err)
 		}
